@@ -57,12 +57,19 @@ impl Def {
 /// Definition of a unit written any way the bundled converter knows (resolved through the
 /// converter's name index, defined through the independent table by its canonical symbol).
 pub fn def_of(conv: &cooklang::Converter, key: &str) -> Option<Def> {
-    let u = conv.find_unit(key)?;
+    let u = unit_by_exact_key(conv, key)?;
     let d = def_by_symbol(u.symbol())?;
     if d.q != u.physical_quantity {
         return None;
     }
     Some(d)
+}
+
+/// the unit that literally declares this key (name, symbol or alias) — read from the units' data, not through the
+/// converter's lookup function, so that a lookup that guesses (plural stripping, case folding, trimming) cannot make the
+/// oracle share its mistake
+pub fn unit_by_exact_key<'a>(conv: &'a cooklang::Converter, key: &str) -> Option<&'a cooklang::convert::Unit> {
+    conv.all_units().find(|u| u.names.iter().chain(&u.symbols).chain(&u.aliases).any(|k| &**k == key))
 }
 
 pub fn close(a: f64, b: f64, rel: f64, abs: f64) -> bool {
